@@ -57,6 +57,23 @@ VERT_INFO = {"openTypeVheaVertTypoAscender": 500, "openTypeVheaVertTypoDescender
              "openTypeVheaVertTypoLineGap": 0}
 KEEP_GLYPH_NAMES = "com.github.googlei18n.ufo2ft.keepGlyphNames"
 FLAVOURS = ["ttf", "otf", "cff2"]
+# part "tt": TrueType programs.  Glyph programs (6 and 11 bytes), font-level data: absent, maxp values
+# only, programs shorter / longer than the glyph programs
+TT_KEY = "public.truetype.instructions"
+TT_PROGS = {"short": "SVTCA[0]\nPUSHB[ ] 0\nMDAP[1]\nIUP[0]\nIUP[1]",
+            "long": "SVTCA[0]\nPUSHB[ ] 0\nMDAP[1]\nSVTCA[1]\nPUSHB[ ] 0\nMDAP[1]\nIUP[0]\nIUP[1]\nSVTCA[0]"}
+TT_MAXP = {"maxStorage": 3, "maxFunctionDefs": 2, "maxInstructionDefs": 1, "maxStackElements": 17,
+           "maxZones": 2, "maxTwilightPoints": 5, "maxSizeOfInstructions": 4242}
+TT_FONTDATA = {
+    "none": None,
+    "maxp": dict(TT_MAXP, formatVersion="1"),
+    "short-programs": {"formatVersion": "1", "fontProgram": "PUSHB[ ] 0\nFDEF[ ]\nENDF[ ]",
+                       "controlValueProgram": "SVTCA[0]", "controlValue": {"0": 10, "2": 30}},
+    "long-programs": dict(TT_MAXP, formatVersion="1", fontProgram="\n".join(["PUSHB[ ] 0", "FDEF[ ]"] +
+                          ["SVTCA[0]"] * 40 + ["ENDF[ ]"]), controlValueProgram="\n".join(["SVTCA[1]"] * 30)),
+}
+TT_OPS = [[600, k, pr] for k in ("box", "comp", "none") for pr in (None, "short", "long")
+          if not (k == "none" and pr)]
 NOTDEFS = ["explicit", "synth", "empty"]
 
 
@@ -76,7 +93,12 @@ def build_spec(h):
     for i, op in enumerate(h[1:]):
         name = NAMES[i]
         g = {"unicodes": [0x61 + i]}
-        if cfg["part"] in ("h", "rt"):
+        if cfg["part"] == "tt":
+            adv, kind, prog = op
+            g["width"] = adv
+            g["height"] = 1000
+            s = {"adv": adv, "height": 1000, "vorg": None, "prog": prog}
+        elif cfg["part"] in ("h", "rt"):
             adv, kind = op
             g["width"] = adv
             g["height"] = 1000
@@ -115,6 +137,34 @@ def build_spec(h):
         lib[KEEP_GLYPH_NAMES] = False
     order = list(glyphs)
     return {"glyphs": glyphs, "order": order, "info": info, "lib": lib}, src
+
+
+def attach_tt_programs(spec, src, fontdata):
+    """The glyph programs are only accepted with the hash of the compiled TrueType glyph as id: one
+    compile without instructions supplies the hashes (the way a hinting tool obtains them)."""
+    import ufo2ft
+    from functools import partial
+    from fontTools.misc.fixedTools import floatToFixedToFloat
+    from fontTools.pens.hashPointPen import HashPointPen
+    from fontTools.pens.roundingPen import RoundingPointPen
+    plain = ufo2ft.compileTTF(B.build_font(spec))
+    for name, s_ in src.items():
+        if not s_.get("prog"):
+            continue
+        hp = HashPointPen(plain["hmtx"][name][0], plain.getGlyphSet())
+        rp = RoundingPointPen(hp, transformRoundFunc=partial(floatToFixedToFloat, precisionBits=14))
+        plain["glyf"][name].drawPoints(rp, plain["glyf"])
+        spec["glyphs"][name].setdefault("lib", {})[TT_KEY] = {
+            "formatVersion": "1", "id": hp.hash, "assembly": TT_PROGS[s_["prog"]]}
+    if TT_FONTDATA[fontdata] is not None:
+        spec["lib"][TT_KEY] = dict(TT_FONTDATA[fontdata])
+
+
+def assembled(asm):
+    from fontTools.ttLib.tables.ttProgram import Program
+    pr = Program()
+    pr.fromAssembly(asm.splitlines())
+    return bytes(pr.getBytecode())
 
 
 def compile_font(spec, flavour, opt=1, tol=None):
@@ -311,10 +361,10 @@ class C04(Property):
         if tier == "quick":
             return {"depth": 6, "base": {"full": 3, "small": 5}, "vertical": {"full": 3, "small": 3},
                     "all": {"full": 2, "small": 2}, "v_maxlen": 3, "vb_maxlen": 2, "cp_maxlen": 3, "subr_len": 1,
-                    "rt_maxlen": 2}
+                    "rt_maxlen": 2, "tt_maxlen": 3}
         return {"depth": 6, "base": {"full": 5, "small": 5}, "vertical": {"full": 4, "small": 4},
                 "all": {"full": 3, "small": 3}, "v_maxlen": 4, "vb_maxlen": 3, "cp_maxlen": 4, "subr_len": 2,
-                "rt_maxlen": 3}
+                "rt_maxlen": 3, "tt_maxlen": 4}
 
     def initial(self, b):
         out = []
@@ -340,6 +390,10 @@ class C04(Property):
                          "vpal": "b", "maxlen": b["vb_maxlen"]}])
             out.append([{"part": "cp", "flavour": fl, "vertical": False, "notdef": "explicit", "keep": True,
                          "maxlen": b["cp_maxlen"]}])
+        # TrueType programs: every font-level variant x glyph programs
+        for fd in TT_FONTDATA:
+            out.append([{"part": "tt", "flavour": "ttf", "vertical": False, "notdef": "explicit", "keep": True,
+                         "fontdata": fd, "maxlen": b["tt_maxlen"]}])
         # fractional outlines x roundTolerance (the tolerance is a CFF option; TTF always rounds)
         for fl in FLAVOURS:
             for tol in (RT_TOLERANCES if fl != "ttf" else [None]):
@@ -369,6 +423,9 @@ class C04(Property):
             return V_OPS[cfg.get("vpal", "a")]
         if cfg["part"] == "rt":
             return RT_OPS
+        if cfg["part"] == "tt":
+            has_outline = any(op[1] != "none" for op in h[1:])
+            return [op for op in TT_OPS if op[1] != "comp" or has_outline]
         used = set(op for op in h[1:] if op is not None)
         return [cp for cp in CP_PALETTE if cp is None or cp not in used]
 
@@ -396,6 +453,9 @@ class C04(Property):
                  "notdef": cfg["notdef"],
                  "outlines": cfg["notdef"] != "empty" or any(x["kind"] != "none" for x in src.values())}
         try:
+            if cfg["part"] == "tt":
+                attach_tt_programs(spec, src, cfg["fontdata"])
+                feat0["fontdata"] = cfg["fontdata"]
             otf = compile_font(spec, flavour, opt, tol)
         except Exception as e:  # "can be compiled and saved" is the property: classify, do not crash
             bad("cannot-compile", dict(efeat, type=type(e).__name__), message=str(e)[:300])
@@ -410,7 +470,8 @@ class C04(Property):
                                       "yMaxExtent", "numberOfVMetrics")),
                             ("head", ("xMin", "yMin", "xMax", "yMax")),
                             ("OS/2", ("usFirstCharIndex", "usLastCharIndex")),
-                            ("maxp", ("numGlyphs", "maxComponentElements", "maxComponentDepth"))):
+                            ("maxp", ("numGlyphs", "maxComponentElements", "maxComponentDepth",
+                                      "maxSizeOfInstructions") + tuple(k for k in TT_MAXP if k != "maxSizeOfInstructions"))):
             if tag in otf:
                 t = otf[tag]
                 mem[tag] = {f: getattr(t, f) for f in fields if hasattr(t, f)}
@@ -534,6 +595,46 @@ class C04(Property):
             if f in mem.get("maxp", {}) and mem["maxp"][f] != want:
                 bad("derived-field", {"table": "maxp", "field": f, "where": "compiled-object"}, expected=want,
                     observed=mem["maxp"][f])
+        if cfg["part"] == "tt":
+            # stored programs = the source programs; maxp.maxSizeOfInstructions = the longest stored glyph
+            # program (ufo2ft's definition; one that also counts fpgm/prep would be accepted too)
+            sizes = []
+            for sname, name in by_src.items():
+                g = tt["glyf"][name]
+                got = bytes(g.program.getBytecode()) if hasattr(g, "program") and g.program else b""
+                want = assembled(TT_PROGS[src[sname]["prog"]]) if src.get(sname, {}).get("prog") else b""
+                if got != want:
+                    bad("glyph-program", {"kind": src[sname]["kind"]}, glyph=sname, expected=want.hex(),
+                        observed=got.hex())
+                sizes.append(len(got))
+                if got:
+                    ctrs["glyph_programs_compared"] = ctrs.get("glyph_programs_compared", 0) + 1
+            longest = max(sizes, default=0)
+            other = [len(bytes(tt[t].program.getBytecode())) for t in ("fpgm", "prep") if t in tt]
+            accept = {longest, max([longest] + other)}
+            fd = TT_FONTDATA[cfg["fontdata"]] or {}
+            for t, key in (("fpgm", "fontProgram"), ("prep", "controlValueProgram")):
+                want = assembled(fd[key]) if fd.get(key) else None
+                got = bytes(tt[t].program.getBytecode()) if t in tt else None
+                if got != want:
+                    bad("font-program", {"table": t}, expected=want and want.hex(), observed=got and got.hex())
+            for where, val in (("reloaded", mp.maxSizeOfInstructions),
+                               ("compiled-object", mem.get("maxp", {}).get("maxSizeOfInstructions"))):
+                if val not in accept:
+                    bad("derived-field", {"table": "maxp", "field": "maxSizeOfInstructions", "where": where},
+                        expected=sorted(accept), observed=val)
+            if longest:
+                ctrs["maxp_instruction_size_from_glyph_programs"] = 1
+                if other and max(other) > longest:
+                    ctrs["font_programs_longer_than_glyph_programs"] = 1
+            for f, want in TT_MAXP.items():
+                if f == "maxSizeOfInstructions" or f not in fd:
+                    continue
+                for where, val in (("reloaded", getattr(mp, f)), ("compiled-object", mem.get("maxp", {}).get(f))):
+                    if val != want:
+                        bad("derived-field", {"table": "maxp", "field": f, "where": where}, expected=want,
+                            observed=val)
+                ctrs["explicit_maxp_values_compared"] = 1
         # VORG
         want_vorg = cfg["vertical"] and flavour != "ttf"
         if ("VORG" in tt) != want_vorg:
@@ -571,7 +672,7 @@ class C04(Property):
         # ---- non-vacuity ---------------------------------------------------------------------------
         advs = [hm[n][0] for n in order]
         k = exp["hhea"]["numberOfHMetrics"]
-        nt = False
+        nt = bool(ctrs.get("glyph_programs_compared"))
         if k < len(order):
             ctrs["trailing_equal_advances"] = 1
             nt = True
